@@ -57,11 +57,11 @@ LEVEL = 'exploration'
 P_TARGETS = []
 BUDGET = {'quick': 34.0, 'thorough': 420.0}
 CHUNK = 100
-N_RANDOM = {'quick': 6000, 'thorough': 150000}
-XPROC = {'quick': (5, 20), 'thorough': (40, 40)}      # (batches, configurations per batch)
+N_RANDOM = {'quick': 3000, 'thorough': 150000}
+XPROC = {'quick': (4, 15), 'thorough': (40, 40)}      # (batches, configurations per batch)
 BOUNDS = {
     'quick': {'fragments': '1..4', 'descriptors_per_fragment': '1..4', 'kinds': ['$', '>', '<'], 'labels': ['', 'A', 'B', 'C'],
-              'orders': [1, 2, 3], 'scenario_seeds': '0..7', 'systematic_family': 'as C16', 'random_configurations': N_RANDOM['quick'],
+              'orders': [1, 2, 3], 'scenario_seeds': '0..7', 'systematic_family': 'as C16, seed 1 only', 'random_configurations': N_RANDOM['quick'],
               'random_seeds': '0..15', 'histories_per_configuration': '2 (+1 with explicit order digits when the spelling differs)', 'cross_process_batches': XPROC['quick'][0],
               'configurations_per_batch': XPROC['quick'][1], 'hash_seeds': [1, 4242]},
     'thorough': {'fragments': '1..4', 'descriptors_per_fragment': '1..4', 'kinds': ['$', '>', '<'], 'labels': ['', 'A', 'B', 'C'],
@@ -102,7 +102,7 @@ def cases(tier, seed):
             batch = []
 
     def singles():
-        for c in g4.structured_cases(tier):
+        for c in g4.structured_cases(tier, systematic_seeds=[1] if tier == 'quick' else None):
             yield {'kind': 'one', 'cfg': c}
         for c in g4.random_cases(tier, seed, N_RANDOM[tier]):
             yield {'kind': 'one', 'cfg': c}
